@@ -639,4 +639,45 @@ Proof.
   destruct O as [O1 [O2 O3]]. destruct O2 as [O2|O2]; subst o1; cbn [exec eval]; (split; [exact O1|split; [reflexivity|apply rep_restore; exact O3]]).
 Qed.
 
+
+(* UKVFile(path, mode) for mode r / a on an existing file: the object starts as the never-opened handle h0 and is opened *)
+Theorem init_code fuel s m hh1 hh2 bb0 rest v1 v2 v0 :
+  (List.length (file s) < fuel)%nat ->
+  file s = (mk_header hh1 hh2 bb0 ++ rest)%list -> List.length hh1 = 16%nat -> len hh2 < 65536 -> len bb0 < 4294967296 ->
+  lookup_env (locals s) "mode" = Some (VStr (mode_str m)) ->
+  lookup_env (locals s) "h1" = Some v1 -> lookup_env (locals s) "h2" = Some v2 -> lookup_env (locals s) "b0" = Some v0 ->
+  let '(s', o) := exec fuel init_prog s in
+  let '(f', h') := open_ (file s) h0 m in
+  file s' = f' /\ o = ONormal /\ Rep s' h'.
+Proof.
+  intros Hfuel Hf L1 L2 L0 Lm Lh1 Lh2 Lb0. unfold init_prog.
+  assert (Tm : forall x, (if truthy (VBool (val_eqb (VStr (mode_str m)) (VStr "r"))) then Val (VBool (val_eqb (VStr (mode_str m)) (VStr "r"))) else x) = x \/ m = MR) by (destruct m; [right; reflexivity|left; reflexivity]).
+  destruct s as [f st at_ lo]. cbn in Hfuel, Hf, Lm, Lh1, Lh2, Lb0.
+  cbn [exec eval locals]. rewrite Lm.
+  assert (Em : truthy (match (if truthy (VBool (val_eqb (VStr (mode_str m)) (VStr "r"))) then Val (VBool (val_eqb (VStr (mode_str m)) (VStr "r")))
+                              else (if truthy (VBool (val_eqb (VStr (mode_str m)) (VStr "x"))) then Val (VBool (val_eqb (VStr (mode_str m)) (VStr "x")))
+                                    else (if truthy (VBool (val_eqb (VStr (mode_str m)) (VStr "w"))) then Val (VBool (val_eqb (VStr (mode_str m)) (VStr "w")))
+                                          else Val (VBool (val_eqb (VStr (mode_str m)) (VStr "a")))))) with Val v => v | Exn _ => VNone end) = true)
+    by (destruct m; reflexivity).
+  destruct m; cbn [mode_str val_eqb String.eqb Ascii.eqb Bool.eqb truthy exec eval locals set_attr attrs file strm];
+    repeat (progress (cbn [exec eval locals set_attr attrs file strm bind_args set_local]; rewrite ?Lm, ?Lh1, ?Lh2, ?Lb0;
+                      try match goal with |- context [if truthy ?v then _ else _] => destruct (truthy v) end)).
+  all: match goal with |- context [exec _ open_prog ?s0] => set (sx := s0) end.
+  all: match goal with |- context [open_ _ h0 ?M] =>
+    assert (Hm : lookup_env (locals sx) "mode" = Some VNone /\ lookup_env (attrs sx) "mode" = Some (VStr (mode_str M)))
+      by (unfold sx; cbn [set_local set_attr locals attrs]; split;
+          [apply lookup_set_same | repeat (rewrite lookup_set_other by discriminate); apply lookup_set_same]);
+    assert (At : lookup_env (attrs sx) "_toc" = Some (VToc (toc h0)) /\ lookup_env (attrs sx) "_last" = Some (vopt_bytes (last h0)) /\
+                 lookup_env (attrs sx) "_eof" = Some (vopt_int (eof h0)) /\ lookup_env (attrs sx) "_closed" = Some (VBool (closed h0)))
+      by (unfold sx; cbn [set_local set_attr locals attrs h0 toc last eof closed vopt_bytes vopt_int];
+          repeat split; repeat (rewrite lookup_set_other by discriminate); apply lookup_set_same);
+    destruct At as [A1 [A2 [A3 A4]]];
+    pose proof (open_code fuel sx h0 M hh1 hh2 bb0 rest Hfuel Hf L1 L2 L0 A1 A2 A3 A4
+                  (fun X => ltac:(discriminate X)) (fun X => ltac:(discriminate X)) (fun k X => ltac:(discriminate X))
+                  (or_intror Hm)) as O;
+    destruct (exec fuel open_prog sx) as [s1 o1]; change (file sx) with f in O; destruct (open_ f h0 M) as [f' h'];
+    destruct O as [O1 [O2 O3]]; destruct O2 as [O2|O2]; subst o1; (split; [exact O1|split; [reflexivity|apply rep_restore; exact O3]])
+  end.
+Qed.
+
 Transparent get_prog put_prog open_prog close_prog read_header_prog map_blocks_prog.
